@@ -48,7 +48,14 @@ def run_sankey(desc):
         flows[f["name"]] = fd.Flow(dims=arr.dims, values=arr.values + shift, name=f["name"], from_process=pl[f["src"]], to_process=pl[f["dst"]])
         marrs[f["name"]] = m.map(lambda v, shift=shift: v + shift)
     mfa = fd.MFASystem(dims=build.dimset(U), parameters={}, processes=procs, flows=flows, stocks={})
-    slice_dict = dict(desc["slice"])
+    slice_dict = {}
+    for l_, v_ in desc["slice"].items():
+        if isinstance(v_, dict):
+            # several items of a dimension: a Dimension holding the subset (the documented way to slice)
+            d_ = build.udim(U, l_)
+            slice_dict[l_] = fd.Dimension(letter=l_.upper(), name=d_["name"] + " part", items=list(v_["subset"]), dtype=build._DT[d_.get("dtype")])
+        else:
+            slice_dict[l_] = v_
     excl_p = list(desc["exclude_processes"])
     excl_f = list(desc["exclude_flows"])
     color_dict = {"default": desc["default_color"]}
@@ -85,8 +92,8 @@ def run_sankey(desc):
         if n in excl_f or desc["procs"][f["src"]] in excl_p or desc["procs"][f["dst"]] in excl_p:
             continue
         m = marrs[n]
-        sel = {l: it for l, it in slice_dict.items() if l in f["letters"]}
-        keys = [k for k in m.keys() if all(dict(zip(m.letters, k))[l] == it for l, it in sel.items())]
+        sel = {l: (list(it["subset"]) if isinstance(it, dict) else [it]) for l, it in desc["slice"].items() if l in f["letters"]}
+        keys = [k for k in m.keys() if all(dict(zip(m.letters, k))[l] in its_ for l, its_ in sel.items())]
         c = f.get("color")
         src, dst = desc["procs"][f["src"]], desc["procs"][f["dst"]]
         if isinstance(c, dict):
@@ -142,6 +149,8 @@ def sankey_cases(draw):
         if draw(st.integers(0, 2)) == 0:
             its = build.udim(U, l)["items"]
             slice_dict[l] = its[draw(st.integers(0, len(its) - 1))]
+            if len(its) >= 2 and draw(st.integers(0, 2)) == 0:
+                slice_dict[l] = {"subset": draw(st.lists(st.sampled_from(its), min_size=2, max_size=len(its), unique=True))}
     for f in flows:
         k = draw(st.integers(0, 3))
         if k == 1:
